@@ -215,6 +215,8 @@ _GID = [0]
 
 def _new_grid(args, kwargs, st, eng, ones):
     base_axioms(st)
+    eng.used_trusted.add("model:pyvc/libmask.py 0/1 grids (GridCell / GridBoxSum with point-write, box-write and product axioms; "
+                         "0 <= box count <= area; flatten().nonzero() = increasing enumeration of the set cells; fresh allocation ids)")
     size = args[0] if len(args) == 1 else VTuple(list(args))
     size = eng.deref(kwargs.get("size", size), st)
     dims = size.elems if isinstance(size, VTuple) else eng.as_seq(size, st).concrete
